@@ -305,6 +305,7 @@ func runAct(casesPath, tracePath string, shard, shards int) {
 
 	var cl *e2e.HTTPClient
 	seq := 0
+	maxGap := startWatchdog()
 	// one request/response on the kept-alive downstream connection; a connection the proxy closed is replaced once
 	do := func(uri string, hdr map[string]string) (string, e2e.Outcome) {
 		for try := 0; ; try++ {
@@ -316,6 +317,7 @@ func runAct(casesPath, tracePath string, shard, shards int) {
 				vh.Must(err, "dial proxy")
 				cl = c
 			}
+			atomic.StoreInt64(maxGap, 0)
 			err := cl.Send("GET", uri, hdr, "")
 			var o e2e.Outcome
 			if err == nil {
@@ -325,6 +327,10 @@ func runAct(casesPath, tracePath string, shard, shards int) {
 				cl.Close()
 				cl = nil
 				if try == 0 && (err != nil || o.Kind == "eof") && len(up.take(tok)) == 0 {
+					continue
+				}
+				if try < 3 && atomic.LoadInt64(maxGap) > 1500 { // the machine stalled: says nothing about the proxy
+					up.take(tok)
 					continue
 				}
 			}
@@ -795,6 +801,7 @@ func runRetry(casesPath, tracePath, resPath string, shard, shards int) {
 	})
 	defer sched.Uninstall()
 	active := func() int64 { return metrics.NewListenerStats("c17").Counter(metrics.DownstreamRequestActive).Count() }
+	maxGap := startWatchdog()
 
 	behave := map[string]string{"s200": "ok", "s404": "s404", "s500": "s500", "s503": "s503", "term": "rst", "ptmo": "hang", "gtmo": "hang"}
 	idx, n := 0, 0
@@ -858,63 +865,85 @@ func runRetry(casesPath, tracePath, resPath string, shard, shards int) {
 		if len(bs) == 0 {
 			bs = []string{"ok"}
 		}
-		tok := fmt.Sprintf("y%d-%d", shard, idx)
-		sched.Reset()
-		bmu.Lock()
-		rbuf = nil
-		bmu.Unlock()
-		atomic.StoreUint64(&firstRid, 0)
-		curTok.Store(tok)
-		t0.Store(time.Now())
-		mark := sched.Mark()
-		var rm types.ResourceManager
-		occupied := false
-		occupy := func() {
-			snap := cluster.GetClusterMngAdapterInstance().GetClusterSnapshot(nil, cname)
-			if snap != nil {
-				rm = snap.ClusterInfo().ResourceManager()
-				rm.Requests().Increase() // the cluster's request breaker is full, as with another request in flight
-				occupied = true
+		var (
+			tok     string
+			o       e2e.Outcome
+			reached bool
+			buf     []vh.Ev
+			rid     uint64
+			stalled bool
+		)
+		// a run during which the process did not get to run for a long stretch (machine stalled) says nothing
+		// about the proxy's timers: it is repeated, and dropped if that keeps happening
+		for try := 0; try < 3; try++ {
+			tok = fmt.Sprintf("y%d-%d-%d", shard, idx, try)
+			atomic.StoreInt64(maxGap, 0)
+			sched.Reset()
+			bmu.Lock()
+			rbuf = nil
+			bmu.Unlock()
+			atomic.StoreUint64(&firstRid, 0)
+			curTok.Store(tok)
+			t0.Store(time.Now())
+			mark := sched.Mark()
+			var rm types.ResourceManager
+			occupied := false
+			occupy := func() {
+				snap := cluster.GetClusterMngAdapterInstance().GetClusterSnapshot(nil, cname)
+				if snap != nil {
+					rm = snap.ClusterInfo().ResourceManager()
+					rm.Requests().Increase() // the cluster's request breaker is full, as with another request in flight
+					occupied = true
+				}
 			}
-		}
-		if ovfAt == 0 {
-			occupy()
-		} else if ovfAt > 0 {
-			sched.HoldNth("ds.retry.begin", ovfAt)
-		}
-		cl, err := e2e.DialHTTP(laddr)
-		vh.Must(err, "dial proxy")
-		vh.Must(cl.Send("GET", "/r/x", map[string]string{"Host": "h.local", "X-Token": tok, "X-Script": strings.Join(bs, ",")}, ""), "send")
-		reached := true
-		if ovfAt > 0 {
-			// the breaker fills up between two attempts: hold the worker before the retry reaches the pool
-			reached = sched.AwaitArrive("ds.retry.begin", 5*time.Second)
-			if reached {
+			if ovfAt == 0 {
 				occupy()
+			} else if ovfAt > 0 {
+				sched.HoldNth("ds.retry.begin", ovfAt)
 			}
-			sched.Release("ds.retry.begin")
+			cl, err := e2e.DialHTTP(laddr)
+			vh.Must(err, "dial proxy")
+			vh.Must(cl.Send("GET", "/r/x", map[string]string{"Host": "h.local", "X-Token": tok, "X-Script": strings.Join(bs, ",")}, ""), "send")
+			reached = true
+			if ovfAt > 0 {
+				// the breaker fills up between two attempts: hold the worker before the retry reaches the pool
+				reached = sched.AwaitArrive("ds.retry.begin", 5*time.Second)
+				if reached {
+					occupy()
+				}
+				sched.Release("ds.retry.begin")
+			}
+			wait := g
+			if wait < 3000 {
+				wait = 3000
+			}
+			o = cl.Recv(time.Duration(wait+3000)*time.Millisecond, 0)
+			cl.Close()
+			reg.releaseAll()
+			sched.ReleaseAll()
+			rid = atomic.LoadUint64(&firstRid)
+			if rid != 0 {
+				sched.AwaitEvent(mark, 3*time.Second, func(e gate.Event) bool { return e.Name == "ds.clean" && u64(e.KV[0]) == rid })
+			}
+			if occupied {
+				rm.Requests().Decrease()
+			}
+			for i := 0; i < 200 && active() != 0; i++ {
+				time.Sleep(10 * time.Millisecond)
+			}
+			bmu.Lock()
+			buf = append([]vh.Ev{}, rbuf...)
+			bmu.Unlock()
+			atomic.StoreUint64(&minRid, rid+1)
+			stalled = atomic.LoadInt64(maxGap) > 1500
+			if !stalled {
+				break
+			}
 		}
-		wait := g
-		if wait < 3000 {
-			wait = 3000
+		if stalled {
+			rs.Put(map[string]interface{}{"idx": idx, "case": c, "stalled": true})
+			return nil
 		}
-		o := cl.Recv(time.Duration(wait+3000)*time.Millisecond, 0)
-		cl.Close()
-		reg.releaseAll()
-		sched.ReleaseAll()
-		rid := atomic.LoadUint64(&firstRid)
-		if rid != 0 {
-			sched.AwaitEvent(mark, 3*time.Second, func(e gate.Event) bool { return e.Name == "ds.clean" && u64(e.KV[0]) == rid })
-		}
-		if occupied {
-			rm.Requests().Decrease()
-		}
-		for i := 0; i < 200 && active() != 0; i++ {
-			time.Sleep(10 * time.Millisecond)
-		}
-		bmu.Lock()
-		buf := append([]vh.Ev{}, rbuf...)
-		bmu.Unlock()
 		nh := 4
 		tr.Emit(vh.Ev{"ev": "run", "pol": map[string]interface{}{"on": c.Pol.On, "n": c.Pol.N, "codes": nonNil(c.Pol.Codes)}, "script": c.Script,
 			"nhosts": nh, "g": g, "t": t, "cluster": cname, "name": tok})
@@ -932,6 +961,24 @@ func runRetry(casesPath, tracePath, resPath string, shard, shards int) {
 	})
 	vh.Must(err, "retry cases")
 	fmt.Printf("c17 retry runs=%d events=%d\n", n, tr.Len())
+}
+
+// startWatchdog reports, in the returned counter, the longest stretch (ms) for which a 50 ms ticker goroutine was not
+// scheduled since the counter was last zeroed: a stalled machine must not be mistaken for a proxy that does not answer.
+func startWatchdog() *int64 {
+	var maxGap int64
+	go func() {
+		last := time.Now()
+		for {
+			time.Sleep(50 * time.Millisecond)
+			now := time.Now()
+			if gap := now.Sub(last).Milliseconds() - 50; gap > atomic.LoadInt64(&maxGap) {
+				atomic.StoreInt64(&maxGap, gap)
+			}
+			last = now
+		}
+	}()
+	return &maxGap
 }
 
 // refuseAddr returns a loopback address that refuses connections for the life of the process: the port is bound by a
